@@ -108,14 +108,14 @@ Proof.
   apply flat_map_ext_in. intros r Hr. apply in_zrange in Hr. rewrite map_map. cbn [fst snd].
   rewrite <- (map_map cell_of_block (fun c => (r, c))). f_equal.
   destruct (wh_range p Hsc) as (A & B & C). destruct (cb_range p Hsc) as [Cw Ch]. fold w h L in A, B, C.
-  destruct (dec_band_infos_agree w h 0 0 L r) as [Hd _]. rewrite Hd.
+  destruct (dec_band_infos_agree w h (pp_x0 p) (pp_y0 p) L r) as [Hd _]. rewrite Hd.
   unfold enc_blocks_res, enc_subbands. fold w h L. rewrite flat_map_map, map_flat_map.
   apply flat_map_ext_in. intros b Hb.
-  destruct (bands_inside_array w h 0 0 L ltac:(lia) ltac:(lia) r b ltac:(lia) Hb) as [B1 [B2 _]].
+  destruct (bands_inside_array w h (pp_x0 p) (pp_y0 p) L ltac:(lia) ltac:(lia) r b ltac:(lia) Hb) as [B1 [B2 _]].
   apply dec_band_cells_eq; lia.
 Qed.
 
-Lemma enc_blocks_all : forall d, map snd (enc_blocks p d) = enc_all_blocks d w h 0 0 L (pp_cbw p) (pp_cbh p).
+Lemma enc_blocks_all : forall d, map snd (enc_blocks p d) = enc_all_blocks d w h (pp_x0 p) (pp_y0 p) L (pp_cbw p) (pp_cbh p).
 Proof.
   intros d. unfold enc_blocks, enc_all_blocks, enc_blocks_res. fold w h L. rewrite map_flat_map.
   apply flat_map_ext_in. intros r _. rewrite map_map. cbn [snd]. apply map_id.
@@ -169,16 +169,21 @@ Definition hyp_block_sizes (pix : list Z) : Prop :=
 
 (* ---------- the theorem ---------- *)
 
-Theorem pipe_roundtrip_section : forall samples, samples_ok p samples ->
-  let pix := pack_image p samples in
-  hyp_block_sizes pix ->
-  exists tile, pipe_encode_tile p pix = Ok tile /\ pipe_decode_tile p tile = Ok pix.
+(* the size hypothesis on the coefficient planes of one tile *)
+Definition blocks_small (coeffs : list (list Z)) : Prop :=
+  forall d, In d coeffs -> forall r cb, In (r, cb) (enc_blocks p d) ->
+  forall b, enc_code_block p r cb (cb_cbx cb) (cb_cby cb) = Ok b -> zlen (eb_data b) <= 65535.
+
+(* the middle of the pipeline (everything between the colour transform and its inverse) for one
+   tile at its origin: DWT, blocks, T1, T2 and back *)
+Theorem pipe_planes_roundtrip : forall planes, planes_ok p (2 ^ pp_prec p) planes ->
+  blocks_small (map (pipe_fdwt p) planes) ->
+  exists tile, obind (pipe_cells p (map (pipe_fdwt p) planes)) (pipe_tile_bytes p) = Ok tile /\
+               pipe_dec_planes p tile = Ok planes.
 Proof.
-  intros samples Hsm pix Hbs.
-  destruct (front_ok p samples Hsc Hsm) as [planes [Efront [Hplok Eback]]]. fold pix in Efront, Eback.
+  intros planes Hplok Hbs.
   pose proof Hplok as [Hnp Hpl].
-  set (coeffs := map (pipe_fdwt p) planes).
-  assert (Ecoeffs : pipe_coeffs p pix = Ok coeffs) by (unfold pipe_coeffs; rewrite Efront; reflexivity).
+  set (coeffs := map (pipe_fdwt p) planes). fold coeffs in Hbs.
   pose proof (coeff_fit_sharp planes Hplok) as Hcf. fold coeffs in Hcf.
   assert (Hnc : length coeffs = Z.to_nat nc) by (unfold coeffs; rewrite map_length; exact Hnp).
   assert (Hlen : forall d, In d coeffs -> zlen d = w * h).
@@ -186,15 +191,14 @@ Proof.
     rewrite Forall_forall in Hpl. apply (Hpl pl Hin). }
   destruct (pipe_cells_spec p Hsc coeffs Hnc Hlen Hcf) as [cells [Ecells _]].
   assert (Hsmall : forall d, In d coeffs -> forall r cb, In (r, cb) (enc_blocks p d) -> zlen (eb_data (eblk p r cb)) <= 65535).
-  { intros d Hd r cb Hin. apply (Hbs coeffs Ecoeffs d Hd r cb Hin). apply (eblk_spec p Hsc d (Hlen d Hd) (Hcf d Hd) r cb Hin). }
-  assert (Hord0 : 0 <= pp_order p <= 4) by (destruct Hsc as (_ & _ & _ & _ & _ & _ & _ & _ & H); exact H).
+  { intros d Hd r cb Hin. apply (Hbs d Hd r cb Hin). apply (eblk_spec p Hsc d (Hlen d Hd) (Hcf d Hd) r cb Hin). }
+  assert (Hord0 : 0 <= pp_order p <= 4) by (destruct Hsc as (_ & _ & _ & _ & _ & _ & _ & _ & H & _); exact H).
   destruct (t2_encodes p Hsc coeffs Hnc Hlen Hcf Hsmall cells Ecells Hord0) as [eps [cells' [Eenc Hsp]]].
   exists (packets_bytes eps). split.
-  - unfold pipe_encode_tile. rewrite Ecoeffs. cbn [obind]. rewrite Ecells. cbn [obind].
+  - rewrite Ecells. cbn [obind].
     unfold pipe_tile_bytes. rewrite Eenc. reflexivity.
-  - destruct Hsc as (_ & _ & Hncr & _ & _ & _ & _ & _ & Hord).
-    destruct (t2_delivers p Hsc coeffs Hnc Hlen Hcf Hsmall cells Ecells eps cells' Hord Eenc Hsp) as [dps [Edec Hdel]].
-    unfold pipe_decode_tile, pipe_dec_planes. rewrite Edec. cbn [obind].
+  - destruct (t2_delivers p Hsc coeffs Hnc Hlen Hcf Hsmall cells Ecells eps cells' Hord0 Eenc Hsp) as [dps [Edec Hdel]].
+    unfold pipe_dec_planes. rewrite Edec. cbn [obind].
     (* every component *)
     assert (Hcomp : forall c, 0 <= c < nc -> dec_component p dps c = Ok (nth (Z.to_nat c) planes [])).
     { intros c Hc. unfold dec_component.
@@ -202,7 +206,7 @@ Proof.
       rewrite (dec_code_blocks_all d _ (Hlen d Hd)).
       - cbn [obind]. f_equal. rewrite enc_blocks_all. fold w h.
         destruct (wh_range p Hsc) as (A & B & C). destruct (cb_range p Hsc) as [Cw Ch]. fold w h L in A, B, C.
-        rewrite (extract_assemble_subbands_id w h 0 0 L (pp_cbw p) (pp_cbh p) ltac:(lia) ltac:(lia) ltac:(lia) ltac:(lia) ltac:(lia) d (Hlen d Hd)).
+        rewrite (extract_assemble_subbands_id w h (pp_x0 p) (pp_y0 p) L (pp_cbw p) (pp_cbh p) ltac:(lia) ltac:(lia) ltac:(lia) ltac:(lia) ltac:(lia) d (Hlen d Hd)).
         unfold d, coef, coeffs.
         rewrite (nth_indep _ [] (pipe_fdwt p [])) by (rewrite map_length, Hnp; lia). rewrite map_nth.
         apply idwt_fdwt. rewrite Forall_forall in Hpl. apply Hpl. apply nth_In. rewrite Hnp. lia.
@@ -213,14 +217,28 @@ Proof.
     { induction cs as [|c cs IH]; intros Hin; cbn [dec_components map]; [reflexivity|].
       rewrite (Hcomp c (Hin c (or_introl eq_refl))). cbn [obind]. rewrite IH by (intros c' Hc'; apply Hin; right; exact Hc').
       reflexivity. }
-    fold nc. rewrite (Hall (zrange nc)) by (intros c Hc; apply in_zrange in Hc; exact Hc). cbn [obind]. f_equal.
+    fold nc. rewrite (Hall (zrange nc)) by (intros c Hc; apply in_zrange in Hc; exact Hc). f_equal.
     assert (Epl : map (fun c => nth (Z.to_nat c) planes []) (zrange nc) = planes).
     { unfold zrange, nc. rewrite map_map. rewrite <- Hnp. clear. induction planes as [|x l IH] using rev_ind; [reflexivity|].
       rewrite app_length. cbn [length]. rewrite Nat.add_1_r, seq_S, map_app. cbn [map]. rewrite Nat.add_0_l.
       f_equal.
       - rewrite <- IH at 2. apply map_ext_in. intros i Hi. apply in_seq in Hi. rewrite Nat2Z.id. apply app_nth1. lia.
       - rewrite Nat2Z.id, app_nth2 by lia. rewrite Nat.sub_diag. reflexivity. }
-    rewrite Epl. exact Eback.
+    exact Epl.
+Qed.
+
+Theorem pipe_roundtrip_section : forall samples, samples_ok p samples ->
+  let pix := pack_image p samples in
+  hyp_block_sizes pix ->
+  exists tile, pipe_encode_tile p pix = Ok tile /\ pipe_decode_tile p tile = Ok pix.
+Proof.
+  intros samples Hsm pix Hbs.
+  destruct (front_ok p samples Hsc Hsm) as [planes [Efront [Hplok Eback]]]. fold pix in Efront, Eback.
+  assert (Ecoeffs : pipe_coeffs p pix = Ok (map (pipe_fdwt p) planes)) by (unfold pipe_coeffs; rewrite Efront; reflexivity).
+  destruct (pipe_planes_roundtrip planes Hplok (Hbs _ Ecoeffs)) as [tile [Eenc Edec]].
+  exists tile. split.
+  - unfold pipe_encode_tile. rewrite Ecoeffs. exact Eenc.
+  - unfold pipe_decode_tile. rewrite Edec. cbn [obind]. rewrite Eback. reflexivity.
 Qed.
 
 End Main.
